@@ -925,17 +925,29 @@ def count_dense(rng, n_rows, n_cols):
     return M
 
 
+def mirror(M):
+    """boundary data: the matrix is made invariant under exchanging columns 1 and 3 together with rows 2 and 3, so it has
+    a singular vector with entries of equal size and opposite sign (a tie for every sign convention)"""
+    M = M.copy()
+    M[:, 3] = M[:, 1]
+    M[2:6] = 0.0
+    M[2, 1] = M[3, 3] = M[4, 1] = M[5, 3] = 2.0          # (twice, so that this direction is among the leading ones)
+    return M
+
+
 def matrix_like(cls, name, kw, rng, cell, fit_fmts, pool_fmts, fit_kw=None, seeded=False, n_cols=None, strict_shape=False):
     n_rows, n_cols = int(rng.randint(6, 10)), n_cols or int(rng.randint(4, 7))
     ff = lambda j: rot(fit_fmts, cell["fmt"], j)
     pf = lambda j: rot(pool_fmts, cell["fmt"], j)
     X, X2 = count_dense(rng, n_rows, n_cols), count_dense(rng, n_rows, n_cols)
+    if cell.get("data") == "mirror":
+        X, X2 = mirror(X), mirror(X2)
     A, B, C = count_dense(rng, 5, n_cols), count_dense(rng, 5, n_cols), count_dense(rng, 3, n_cols)
     fk = fit_kw or (lambda: {})
     pool = [freeze((mat_fmt(A, pf(1)), {})), freeze((mat_fmt(B, pf(1)), {})), freeze((mat_fmt(A, pf(2)), {})),
             freeze((mat_fmt(C, pf(3)), {})), freeze((mat_fmt(X, pf(4)), {})), freeze((mat_fmt(B, pf(5)), {}))]
     fkw = fk()
-    return Scenario(cls, "%s(%r) X:%s%s" % (name, kw, cell["fmt"], " y" if fkw else ""), freeze(kw), freeze((mat_fmt(X, ff(0)), fkw)), pool,
+    return Scenario(cls, "%s(%r) X:%s%s %s" % (name, kw, cell["fmt"], " y" if fkw else "", cell.get("data", "")), freeze(kw), freeze((mat_fmt(X, ff(0)), fkw)), pool,
                     seeded=seeded, refit_data=freeze((mat_fmt(X2, ff(3)), fk())), use_ft=cell["use_ft"],
                     poison=(lambda: (mat_fmt(count_dense(rng, 3, n_cols + 2), "csr"), {})) if strict_shape else (lambda: ("not a matrix", {})))
 
@@ -944,7 +956,7 @@ INFO_FMT = SPARSE + ["ndarray"]
 
 
 def cells_infoweight(seed):
-    return rotate(cross(approx=[True, False], y=[False, True], fmt=INFO_FMT), seed, use_ft=[False, True], prior=[1e-4, 0.1, 1.0])
+    return rotate(cross(approx=[True, False], y=[False, True], fmt=INFO_FMT), seed, use_ft=[False, True], prior=[1e-4, 0.1, 1.0], data=["random", "mirror"])
 
 
 def sc_infoweight(rng, cell, fx):
@@ -959,7 +971,7 @@ def sc_infoweight(rng, cell, fx):
 
 
 def cells_rowdenoise(seed):
-    return rotate(cross(normalize=[False, True], fmt=SPARSE), seed, use_ft=[False, True], prior=[5.0, 10.0])
+    return rotate(cross(normalize=[False, True], fmt=SPARSE), seed, use_ft=[False, True], prior=[5.0, 10.0], data=["random", "mirror"])
 
 
 def sc_rowdenoise(rng, cell, fx):
@@ -971,7 +983,7 @@ CFC_FIT = ["csr", "csc", "coo", "dia", "bsr", "csr_unsorted", "csc_unsorted", "c
 
 
 def cells_cfc(seed):
-    return rotate(cross(algorithm=["randomized", "arpack"], fmt=CFC_FIT), seed, use_ft=[False, True])
+    return rotate(cross(algorithm=["randomized", "arpack"], fmt=CFC_FIT), seed, use_ft=[False, True], data=["random", "mirror"])
 
 
 def sc_cfc(rng, cell, fx):
